@@ -210,7 +210,8 @@ def gen_c04(r, tier):
             if tier == 'thorough' and r.chance(0.4):
                 a['storage_fault']['enumerate'] = True
         ops.append(a)
-    return {'config': {'clients': clients, 'tmp_dir_configured': True},
+    return {'config': {'clients': clients, 'tmp_dir_configured': True,
+                       'share_option_lists': r.chance(0.35)},
             'ops': ops}
 
 
@@ -415,6 +416,9 @@ def gen_c15(r, tier):
                          else op['actual_files'][0]['text']).splitlines()
             op['opts'] = gl.gen_options(r, ref_lines, act_lines)
         op['ref_exists'] = r.chance(0.92)
+        if 'actual_files' in op and r.chance(0.08):
+            # the program under test did not produce its output file
+            op['actual_missing'] = True
         # reuse names so that artefacts of earlier ops are overwritten
         if r.chance(0.3) and ops:
             prev = r.pick(ops)
@@ -425,7 +429,8 @@ def gen_c15(r, tier):
         ops.append(op)
     return {'config': {'clients': clients,
                        'tmp_dir_configured': r.chance(0.75),
-                       'tmp_dir_late': r.chance(0.25)}, 'ops': ops}
+                       'tmp_dir_late': r.chance(0.25),
+                       'share_option_lists': r.chance(0.3)}, 'ops': ops}
 
 
 def gen_plan(prop, r, tier, run):
@@ -539,6 +544,7 @@ def execute(plan):
     def collector(*a, **kw):
         printed.append(' '.join(str(x) for x in a))
 
+    ctx.plan_config = plan['config']
     with World() as W:
         ctx.W = W
         RT.regenerate.clear()
@@ -799,8 +805,14 @@ def prepare_assert(ctx, op):
         os.makedirs(os.path.dirname(p), exist_ok=True)
         build_frame(op['frame']).to_parquet(p)
         apaths.append(p)
-    for af in op.get('actual_files', []):
+    for k, af in enumerate(op.get('actual_files', [])):
         p = W.path('data', af['name'])
+        if op.get('actual_missing') and k == 0:
+            if os.path.exists(p):
+                os.remove(p)
+            apaths.append(p)
+            ctx.stats['faults']['actual_file_missing'] += 1
+            continue
         if 'hex' in af:
             raw_write(p, data=bytes.fromhex(af['hex']))
         else:
@@ -819,6 +831,17 @@ def call_assert(ctx, op, rpaths, apaths):
     o = dict(op.get('opts') or {})
     if 'preprocess' in o:
         o['preprocess'] = preprocess_fn(o)
+    if ctx.plan_config.get('share_option_lists'):
+        # the caller keeps one list object per option and edits it in place
+        # between assertions
+        shared = ctx.__dict__.setdefault('shared_lists', {})
+        for k in ('ignore_patterns', 'ignore_substrings', 'remove_lines'):
+            if k in o:
+                lst = shared.setdefault(k, [])
+                if lst and lst != o[k]:
+                    ctx.stats['probes']['option_list_edited_in_place'] += 1
+                lst[:] = o[k]
+                o[k] = lst
     k = op['kind']
     refs = op.get('refs') or [op['ref']]
     try:
@@ -1238,6 +1261,10 @@ def check_c15(ctx, op, mode, outcome, exc, delta, log, rpaths, apaths,
                                  [(W.rel(p), c) for p, c in outside],
                                  [(c, W.rel(p)) for c, p in outside_w]))
     msg = str(exc)
+    if op.get('actual_missing'):
+        # there is no actual to compare or to copy: only the audit above
+        ctx.stats['abstain']['missing_actual_file'] += 1
+        return
     missing_ref = not all(os.path.exists(p) for p in rpaths)
     cmds = CMD_RE.findall(msg)
     if not cmds:
